@@ -32,7 +32,8 @@ pub enum C17Case {
         licenses: Vec<usize>,
         path: usize,
         /// 0 plain; 1 header carries "License: L0" with text; 2 header carries "License: L1" (name only) and a Comment;
-        /// 3 stand-alone licence paragraphs come before the Files paragraphs; 4 after the first Files paragraph
+        /// 3 stand-alone licence paragraphs come before the Files paragraphs; 4 after the first Files paragraph;
+        /// 5 the text does not end in a newline; 6 a comment line in front of every paragraph but the header
         #[serde(default)]
         layout: usize,
     },
@@ -101,7 +102,7 @@ fn lic_text(kind: usize) -> (String, License) {
     }
 }
 
-pub const LAYOUTS: usize = 5;
+pub const LAYOUTS: usize = 7;
 
 /// stand-alone licence j named by n: 0..=2 -> "L<n>" with text, 3..=5 -> "L<n-3>" without text (name and a comment only)
 fn standalone_para(j: usize, n: usize) -> (String, License) {
@@ -140,8 +141,15 @@ fn render_lookup(files: &[(usize, usize, bool, usize)], licenses: &[usize], layo
             lics(&mut t);
         }
     }
-    if layout < 3 {
+    if layout < 3 || layout >= 5 {
         lics(&mut t);
+    }
+    match layout {
+        5 => {
+            t.pop();
+        }
+        6 => t = t.replace("\n\nFiles:", "\n\n# about these files\nFiles:").replace("\n\nLicense:", "\n\n# about this licence\nLicense:"),
+        _ => {}
     }
     t
 }
@@ -164,6 +172,15 @@ fn check_lookup(files: &[(usize, usize, bool, usize)], licenses: &[usize], path:
         }
     });
     let ctx = |w: &str| format!("copyright file {:?}, path {:?}: {}", text, p, w);
+    // the tolerant reader and the file reader give the same answers as the strict one
+    // (copyright files with at most one Files paragraph: the lookups themselves are the strict reader's business below)
+    let few = files.len() <= 1;
+    let strict_answer = if !few { None } else { ll::Copyright::from_str(&text).ok().map(|c| (c.find_files(Path::new(p)).and_then(|f| f.comment()), c.find_license_for_file(Path::new(p)))) };
+    let relaxed_answer = if !few { None } else { ll::Copyright::from_str_relaxed(&text).ok().map(|(c, _)| (c.find_files(Path::new(p)).and_then(|f| f.comment()), c.find_license_for_file(Path::new(p)))) };
+    let file_answer = if !few { None } else { crate::props::c02::with_file(&text, |path| ll::Copyright::from_file(path).ok().map(|c| (c.find_files(Path::new(p)).and_then(|f| f.comment()), c.find_license_for_file(Path::new(p))))) };
+    if files.len() <= 1 && (relaxed_answer != strict_answer || file_answer != strict_answer) {
+        out.push(viol("readers-agree", ctx(&format!("from_str answers {:?}, from_str_relaxed {:?}, from_file {:?}", strict_answer, relaxed_answer, file_answer))));
+    }
     match ll::Copyright::from_str(&text) {
         Ok(c) => {
             let got_idx = c.find_files(Path::new(p)).and_then(|fp| fp.comment()).and_then(|s| s.trim_start_matches('p').parse::<usize>().ok());
@@ -262,7 +279,7 @@ impl Prop for C17 {
         "exploration"
     }
     fn rule(&self, _t: Tier) -> String {
-        "(a) globs: every pattern of 1..3 tokens (thorough 4) over {a b . / + ( [ * ? \\* \\? \\\\} x every path of 0..2 characters (thorough 3; 2 for 4-token patterns) over {a b . / + ( [ * ? \\}, and every pattern of 1..2 tokens (thorough 3) over {a ) ] { } ^ $ | é - * ?} x every path of 0..2 (thorough 3) characters over the same characters without * ?, through FilesParagraph::matches of both readers against a backtracking matcher written from the statement; (b) lookup: every copyright file (plain; header carrying a licence with text / a licence name and comment; stand-alone licence paragraphs before or between the Files paragraphs - these four layouts with up to 1 (thorough 2) Files paragraphs) of 0..2 Files paragraphs (thorough: a third paragraph from 8 representative configurations) x (1-2 patterns from 5, second one on the same or its own line) x 4 licence kinds, with 0..2 stand-alone licence paragraphs (names L0/L1 in every order, with text or name only) x 6 paths, through find_files / find_license_for_file / find_license_by_name / iter_* of both readers against 'last match wins; own licence text else first stand-alone of that name'; (c) texts not starting with Format; all cases distinct; non-trivial = all".into()
+        "(a) globs: every pattern of 1..3 tokens (thorough 4) over {a b . / + ( [ * ? \\* \\? \\\\} x every path of 0..2 characters (thorough 3; 2 for 4-token patterns) over {a b . / + ( [ * ? \\}, and every pattern of 1..2 tokens (thorough 3) over {a ) ] { } ^ $ | é - * ?} x every path of 0..2 (thorough 3) characters over the same characters without * ?, through FilesParagraph::matches of both readers against a backtracking matcher written from the statement; (b) lookup: every copyright file (plain; header carrying a licence with text / a licence name and comment; stand-alone licence paragraphs before or between the Files paragraphs; no final newline; a comment line in front of every paragraph - these six layouts with up to 1 (thorough 2) Files paragraphs) of 0..2 Files paragraphs (thorough: a third paragraph from 8 representative configurations) x (1-2 patterns from 5, second one on the same or its own line) x 4 licence kinds, with 0..2 stand-alone licence paragraphs (names L0/L1 in every order, with text or name only) x 6 paths, through find_files / find_license_for_file / find_license_by_name / iter_* of both readers against 'last match wins; own licence text else first stand-alone of that name'; (c) texts not starting with Format; all cases distinct; non-trivial = all".into()
     }
     fn bounds(&self, t: Tier) -> Value {
         json!({"pattern_tokens": PAT_TOKENS, "path_chars": PATH_CHARS, "pattern_tokens_2": PAT_TOKENS2, "path_chars_2": PATH_CHARS2, "max_pattern_tokens_2": t.pick(2, 3), "layouts": LAYOUTS, "max_pattern_tokens": t.pick(3, 4), "max_path_len": t.pick(2, 3), "lookup_patterns": LOOKUP_PATTERNS, "lookup_paths": LOOKUP_PATHS, "max_files_paragraphs": t.pick(2, 3)})
